@@ -18,7 +18,7 @@ BASE_SPEC = {
     "bounds": {"u": [-10, 10], "v": [-10, 10], "y": [-40, 40], "z": [-40, 40]},
 }
 FUNCS = ["y", "z", "y+z"]          # goal functions
-FRANGE = {"y": (-12.0, 12.0), "z": (-20.0, 20.0), "y+z": (-32.0, 32.0), "ny": (-40.0, 40.0)}
+FRANGE = {"y": (-12.0, 12.0), "z": (-20.0, 20.0), "y+z": (-32.0, 32.0), "ny": (-40.0, 40.0), "y-d": (-30.0, 30.0)}
 
 
 def fnum(x):
@@ -44,7 +44,16 @@ def spec_for(case):
         s["bounds"] = dict(BASE_SPEC["bounds"], w=[-1, 1])
     if case.get("aliases"):
         s["aliases"] = case["aliases"]
+    if case.get("demand"):
+        # a constant input d(t) of the model, the same for all members; the goal function "y-d" reads it
+        global _DEMAND
+        _DEMAND = [fnum(x) for x in case["demand"]]
+        s["constant_inputs"] = ["d"]
+        s["constant_input_values"] = [{"d": list(case["demand"])} for _ in range(s["ensemble_size"])]
     return s
+
+
+_DEMAND = None
 
 
 def goal_function(fn, op, em, path, t=None):
@@ -56,6 +65,8 @@ def goal_function(fn, op, em, path, t=None):
         return st("z")
     if fn == "ny":
         return -st("y")
+    if fn == "y-d":
+        return st("y") - op.state("d")          # (path goals only)
     return st("y") + st("z")
 
 
@@ -67,6 +78,8 @@ def goal_value(fn, res, k=None):
         v = res["z"]
     elif fn == "ny":
         v = -res["y"]
+    elif fn == "y-d":
+        v = res["y"] - np.array(_DEMAND)
     else:
         v = res["y"] + res["z"]
     return v if k is None else v[k]
